@@ -1,5 +1,5 @@
 import logging, os, sys, tempfile
-sys.path.insert(0, "/repo")
+sys.path.insert(0, (sys.argv[1] if len(sys.argv) > 1 else __import__("os").environ.get("PYVC_REPO", "/repo")))
 logging.disable(logging.CRITICAL)
 import twosigma.memento as m
 from twosigma.memento import Environment, ConfigurationRepository, FunctionCluster
